@@ -14,6 +14,12 @@
 (* Catch-up (syncNode): when the link is (re)established and every period,  *)
 (* the two trees are compared top down by hash and, where they differ,      *)
 (* points are exchanged by timestamp and children are compared.             *)
+(* Link loss comes in three kinds that the protocol must all survive: the   *)
+(* sync node is disabled and re-enabled, the connection is cut below the    *)
+(* NATS client (which reconnects on its own), the upstream instance is      *)
+(* restarted.  They differ in the code paths taken, not in this model: the  *)
+(* kind is chosen by the schedule generator (Gen_Sync) and acted out by the *)
+(* driver.                                                                  *)
 (*   intended  children are compared including deleted ones, so a           *)
 (*             tombstone written during an outage travels like any point    *)
 (*   AsCoded   children are listed without deleted ones: a child deleted on *)
@@ -26,6 +32,8 @@ EXTENDS Integers, Sequences, FiniteSets, TLC
 CONSTANTS Idents,     \* identities; each is [e |-> edge, k |-> "pt" | "tomb"]
           Edges,      \* placements below the device root (the root itself is "top")
           ParentOf,   \* [Edges -> Edges \cup {"top"}]
+          Fresh,      \* placements that do not exist at the start: the first (undelete) write of their
+                      \* tombstone identity on a side creates the node there; catch-up carries it over
           MaxWrites, MaxOutages,
           AsCoded
 
@@ -41,9 +49,10 @@ yvars == <<st, link, q, clock, writes, outages, dirty>>
 TombOf(e) == CHOOSE i \in Idents : i.e = e /\ i.k = "tomb"
 \* tombstone timestamps: odd clock values delete, even ones undelete (value is a function of the write)
 Deleted(s, e) == st[s][TombOf(e)] % 2 = 1
-\* an edge is listed by a (non-deleted) child walk iff it and all edges above it are live
+Exists(s, e) == e \notin Fresh \/ st[s][TombOf(e)] > 0
+\* an edge is listed by a (non-deleted) child walk iff it exists and it and all edges above it are live
 RECURSIVE Visible(_, _)
-Visible(s, e) == IF e = "top" THEN TRUE ELSE ~Deleted(s, e) /\ Visible(s, ParentOf[e])
+Visible(s, e) == IF e = "top" THEN TRUE ELSE Exists(s, e) /\ ~Deleted(s, e) /\ Visible(s, ParentOf[e])
 RECURSIVE Reach(_)
 \* the catch-up walk reaches an edge if all edges above it are listed on both sides (intended: always)
 Reach(e) == IF e = "top" THEN TRUE
